@@ -42,6 +42,23 @@ CHECKS.update({
     technique="Coq proof (per-layer invariant + chaining, induction over layers) + correspondence",
     ref="DESIGN.md section 7 C12"),
 })
+CHECKS.update({
+ "C02": dict(
+    text="Proof (Coq): for EVERY kernel, after one pass each category is exactly the fold of the module's own update rule over exactly the rows labelled with it, in order (axiom-free), and one-update facts lift to all weights of all reachable states. At exact real arithmetic (stdlib real axioms): Fuzzy weights never increase, beta=1 fold = meet = a lower bound of all members attained in every coordinate (the bounding box), enclosure permanent, |w| >= rho d after every step in every mode that never lowers the vigilance; ART1 template decreasing / enclosure / bottom-up form / rho-cover; Hypersphere: each new sphere contains the old one (Cauchy-Schwarz + triangle inequality proved on lists), radius monotone and <= r_hat(1-rho); Ellipsoid radius monotone and <= r_hat(1-rho)/2; running mean = arithmetic mean. Tied to /repo by exact histories (Fuzzy/ART2-A) and direct kernel calls (all 8 modules, C03); all clauses are evaluated on the implementation after every presented sample for all 8 modules, bare and as SimpleARTMAP A-side.",
+    note="Trusted: Coq kernel; ClassicalDedekindReals.sig_forall_dec, sig_not_dec, functional_extensionality_dep (stdlib reals); exact-real semantics (partial w.r.t. binary64 rounding); size bounds are for the vigilance in force (MT- lowers it by design); Gaussian/Bayesian sigma/cov recurrences and Bayesian det bound are checked on the implementation only.",
+    technique="Coq proof (generic fold theorem by induction; real-analysis lemmas on lists) + correspondence + implementation-side clause oracle",
+    ref="DESIGN.md section 7 C02"),
+ "C03": dict(
+    text="The Gallina kernels are the published equations; their tie to the code is a direct-call correspondence of category_choice / match_criterion / update / new_weight for all eight modules at a 2^-80 fixed-point instance (2^-30 relative tolerance), and of get_bounding_box / shrink_clusters at exact rationals. Proved (Coq, at exact reals): operator table of the binary match test for all modes incl. the inverted Bayesian test, bounding box for any n <= d, shrink keeps the centre and stays inside the box, ART2-A suppression, ART1 update form, Fuzzy fast learning = fuzzy AND. Purity and match_criterion_bin = op(M, rho) are checked on the implementation for every call.",
+    note="Trusted: as C02; np.linalg.det/inv modelled by cofactor expansion; exp by Taylor series in fixed point (correspondence only).",
+    technique="Coq proof of derived facts + translation-validation-style direct-call correspondence",
+    ref="DESIGN.md section 7 C03"),
+ "C04": dict(
+    text="Proof (Coq, axiom-free for the generic part): kernels are written in an error monad (zero divisor / missing value / out-of-range index = None) and a training step is defined whenever the kernel functions are defined on the stored weights - every index the search produces is in range and every visited match value exists; instances: Fuzzy ART with alpha > 0, ART2-A, Hypersphere with r_hat > 0 and r_hat - R + alpha > 0. Defined-ness of every kernel output is compared with the implementation (direct calls); fit / partial_fit / predict of all 8 modules and of compound estimators are run on legal extremes and any exception or non-finite value is reported.",
+    note="PARTIAL: overflow, underflow and cancellation are binary64 phenomena outside the exact model; Gaussian/Bayesian/Ellipsoid/QuadraticNeuron totality is covered by the correspondence and the implementation-side search, not by a theorem.",
+    technique="Coq proof (totality of the search step) + correspondence + fault search on legal extremes",
+    ref="DESIGN.md section 7 C04"),
+})
 NOT_YET = {}
 def main():
     props = [json.loads(l) for l in open(os.path.join(V, "properties.jsonl"))]
